@@ -2756,12 +2756,17 @@ void SoPlexBase<R>::clearLPReal()
    assert(_realLP != nullptr);
 
    _realLP->clear();
+   // SPxLPBase::clear() resets the sense of the LP to MAXIMIZE; keep it in line with the parameter OBJSENSE
+   _realLP->changeSense(intParam(SoPlexBase<R>::OBJSENSE) == SoPlexBase<R>::OBJSENSE_MAXIMIZE ?
+                        SPxLPBase<R>::MAXIMIZE : SPxLPBase<R>::MINIMIZE);
    _hasBasis = false;
    _rationalLUSolver.clear();
 
    if(intParam(SoPlexBase<R>::SYNCMODE) == SYNCMODE_AUTO)
    {
       _rationalLP->clear();
+      _rationalLP->changeSense(intParam(SoPlexBase<R>::OBJSENSE) == SoPlexBase<R>::OBJSENSE_MAXIMIZE ?
+                               SPxLPRational::MAXIMIZE : SPxLPRational::MINIMIZE);
       _rowTypes.clear();
       _colTypes.clear();
    }
@@ -3685,6 +3690,9 @@ void SoPlexBase<R>::clearLPRational()
    assert(_rationalLP != nullptr);
 
    _rationalLP->clear();
+   // SPxLPBase::clear() resets the sense of the LP to MAXIMIZE; keep it in line with the parameter OBJSENSE
+   _rationalLP->changeSense(intParam(SoPlexBase<R>::OBJSENSE) == SoPlexBase<R>::OBJSENSE_MAXIMIZE ?
+                            SPxLPRational::MAXIMIZE : SPxLPRational::MINIMIZE);
    _rationalLUSolver.clear();
    _rowTypes.clear();
    _colTypes.clear();
@@ -3692,6 +3700,8 @@ void SoPlexBase<R>::clearLPRational()
    if(intParam(SoPlexBase<R>::SYNCMODE) == SYNCMODE_AUTO)
    {
       _realLP->clear();
+      _realLP->changeSense(intParam(SoPlexBase<R>::OBJSENSE) == SoPlexBase<R>::OBJSENSE_MAXIMIZE ?
+                           SPxLPBase<R>::MAXIMIZE : SPxLPBase<R>::MINIMIZE);
       _hasBasis = false;
    }
 
